@@ -105,6 +105,19 @@ def check_vector(v):
             if o != ("ok", wj):
                 bad.append({"what": "int_lists_to_strings of a row selection does not join the canonical texts", "tags": {"op": "int_lists_to_strings", "shape": "view-" + form},
                             "vector": v, "expected": wj, "observed": o})
+        # a written matrix of these integers: rows by columns as indexed, however the matrix lies in memory
+        if len(vals) == 2:
+            from bionumpy.io.matrix_dump import matrix_to_csv
+            wm = "x,y\n" + (",".join(want) + "\n") * 2
+            base = np.array([vals, vals], dtype=np.int64)
+            wide = np.zeros((4, 4), dtype=np.int64)
+            wide[::2, ::2] = base
+            for form, m in (("row-major", base), ("column-major", np.asfortranarray(base)), ("transposed-view", np.ascontiguousarray(base.T).T), ("strided", wide[::2, ::2])):
+                o = outcome(lambda: bnp.as_encoded_array(matrix_to_csv(m, header=["x", "y"])).to_string())
+                n += 1
+                if o != ("ok", wm):
+                    bad.append({"what": "matrix_to_csv does not write the matrix row by row", "tags": {"op": "matrix_to_csv", "layout": form},
+                                "vector": v, "expected": wm, "observed": o})
         # and back: parsing the canonical text gives the value
         o = outcome(lambda: [int(x) for x in str_to_int(bnp.as_encoded_array(want)).tolist()])
         n += 1
@@ -187,6 +200,12 @@ def check_vector(v):
                             "vector": v, "expected": singles[1], "observed": o[1], "case": {"texts": texts}})
             # format then parse returns the double unchanged
             xs = np.array([float(e) for e in exact])
+            # the formatter alone: the text of a double denotes that double (and no other), alone or in the batch
+            ft = outcome(lambda: [float(t) for t in float_to_strings(xs).tolist()] + [float(float_to_strings(xs[k:k + 1]).tolist()[0]) for k in range(len(xs))])
+            n += 1
+            if ft != ("ok", xs.tolist() * 2):
+                bad.append({"what": "the text float_to_strings writes for a double does not denote that double", "tags": {"op": "float-format"},
+                            "vector": v, "expected": xs.tolist() * 2, "observed": ft})
             rt = outcome(lambda: [float(x) for x in str_to_float(float_to_strings(xs)).tolist()])
             n += 1
             if rt[0] == "err":
